@@ -73,6 +73,23 @@ func TestC20_Equality(t *testing.T) {
 		}
 		y := derive(t, x)
 		z := derive(t, y)
+		if rapid.IntRange(0, 7).Draw(t, "close") == 0 {
+			// distinct numbers that differ only beyond binary64 precision or
+			// range, alone or inside equal containers
+			g := gen.Pick(t, "closegroup", gen.CloseNums)
+			wrap := rapid.IntRange(0, 2).Draw(t, "closewrap")
+			mk := func(label string) jv.Val {
+				v := jv.VNumText(gen.Pick(t, label, g))
+				switch wrap {
+				case 1:
+					return jv.VArr([]jv.Val{jv.VInt(1), v})
+				case 2:
+					return jv.VObj([]jv.Member{{K: "a", V: v}, {K: "b", V: jv.VStr("s")}})
+				}
+				return v
+			}
+			x, y, z = mk("cx"), mk("cy"), mk("cz")
+		}
 		c.Case()
 		for _, v := range []jv.Val{x, y, z} {
 			if !numsAllOK(v) {
